@@ -285,7 +285,8 @@ func runC32(c *an.Ctx) {
 		okRole := false
 		an.Instrs(dt, func(in ssa.Instruction) {
 			if mu, ok := in.(*ssa.MapUpdate); ok && an.Path(mu.Key) == `c:"role"` && an.Path(mu.Value) == "$1" {
-				okRole = an.GuardedAny(dt, in, an.Cmp{L: "len($1)", Op: "==", R: "c:0"}, an.Cmp{L: "$1[c:0]", Op: "!=", R: magic})
+				// "empty" may be written == 0, <= 0 or < 1 (a length is never negative)
+				okRole = an.GuardedAny(dt, in, an.Cmp{L: "len($1)", Op: "==", R: "c:0"}, an.Cmp{L: "len($1)", Op: "<=", R: "c:0"}, an.Cmp{L: "len($1)", Op: "<", R: "c:1"}, an.Cmp{L: "$1[c:0]", Op: "!=", R: magic})
 			}
 		})
 		c.Add(okRole, "R2", "decodeTags:role-fallback", dt, "a buffer without the magic byte is taken whole as the role tag", "map update + edge dominance")
